@@ -286,7 +286,7 @@ P = {
     "required_classes": REQUIRED,
     "signature": c02_sig,
     "corrupt": c02_corrupt,
-    "level_text": "The branch-offset fixpoint of write_code (attempts, the monotone wide set, narrow / goto_w / jsr_w / inverted-branch trampoline decisions for backward jumps on the spot and for forward jumps at resolution, switch padding, u16 / i16 ranges with an explicit overflow outcome) is specified as actions Emit / EmitSwitch / Resolve / Finish and model-checked against the declarative layout law (every branch, switch arm and the trampoline's skip designate the offset of the designated item; short forms hold 16 bit offsets; padding = (-(p+1)) mod 4; code_length <= 65535; success iff SOME choice of long forms gives a correct layout within the limit; WideMonotone; termination within |jumps|+1 attempts) over structured families of item lists of up to 7 items (one far jump of every kind in both directions at every alignment with a grow / near jump / far jump / switch in its span, target at every index, two jumps and two big pads in every nesting, switches at each alignment with far arms, sizes around 65535, `ldc`s that grow from two to three bytes so that a method readable with short jumps must be written with long ones). The hash-consed pool (Put with two-slot accounting, overflow, de-duplicated bootstrap table written after the members, ldc / ldc_w by index) is specified operationally and against the by-value law (a class is representable iff 1 + slots of its distinct needed entries <= 65535) for pools on both sides of index 255 and of 65535, plain and after renaming. Every explored list / constant sequence that some class file can hold is assembled with the independent assembler, read by duke, written by duke::write_class and parsed by the independent strict parser; TLC (trace validation) judges every such real output - and the outputs for corpus classes (javac 8/11/17 with and without -g, a JDK sample), hand-written samples under ten encodings, generated families (locals crossing 255, pools crossing 255 under four input encodings, renamed trees via dukebox::remap, trees with local_variables set by hand) and seeded random item lists: WellFormed(recorded summary), facts read back = facts of the tree, the written instruction list is the tree's up to trampolines, and the declarative layout law RealLayoutOK holds of the real offsets.",
+    "level_text": "The branch-offset fixpoint of write_code (attempts, the monotone wide set, narrow / goto_w / jsr_w / inverted-branch trampoline decisions for backward jumps on the spot and for forward jumps at resolution, switch padding, u16 / i16 ranges with an explicit overflow outcome) is specified as actions Emit / EmitSwitch / Resolve / Finish and model-checked against the declarative layout law (every branch, switch arm and the trampoline's skip designate the offset of the designated item; short forms hold 16 bit offsets; padding = (-(p+1)) mod 4; code_length <= 65535; success iff SOME choice of long forms gives a correct layout within the limit; WideMonotone; termination within |jumps|+1 attempts) over structured families of item lists of up to 7 items (one far jump of every kind in both directions at every alignment with a grow / near jump / far jump / switch in its span, target at every index, two jumps and two big pads in every nesting, switches at each alignment with far arms, sizes around 65535, `ldc`s that grow from two to three bytes so that a method readable with short jumps must be written with long ones). The hash-consed pool (Put with two-slot accounting, overflow, de-duplicated bootstrap table written after the members, ldc / ldc_w by index) is specified operationally and against the by-value law (a class is representable iff 1 + slots of its distinct needed entries <= 65535) for pools on both sides of index 255 and of 65535, plain and after renaming. Every explored list / constant sequence that some class file can hold is assembled with the independent assembler, read by duke, written by duke::write_class and parsed by the independent strict parser; TLC (trace validation) judges every such real output - and the outputs for corpus classes (javac 8/11/17 with and without -g, a JDK sample), hand-written samples under ten encodings, generated families (locals crossing 255, pools crossing 255 under four input encodings, renamed trees via dukebox::remap, trees with local_variables set by hand) and seeded random item lists: WellFormed(recorded summary), facts read back = facts of the tree, the written instruction list is the tree's up to trampolines, and the declarative layout law RealLayoutOK holds of the real offsets. Variant linepc: the start_pc of a line number of a corpus / JDK class is moved into an instruction (duke reads it: a label no instruction carries); the writer must refuse such a tree or write a well-formed file.",
     "level_note": "Bounded: item lists of the structured families only (not all lists of length 6: ~10^10), pads materialised as `wide iinc` (6 bytes) + `nop` so that a 65535 byte method has 11k instructions; pool universe of 14-18 constants, sequences of <= 2 (quick) / 3 (thorough). Trusted: TLC; cfkit (independent assembler, strict parser, projection of duke's tree to class facts) - it never decides, it produces inputs and observations; the harness's run-length view of instruction lists (64 bit hashes of the other instructions) and its pairing of index-bearing facts by path. Success is demanded wherever a correct file exists (the property text alone would also allow a writer that always refuses). Known findings (StackMapTable and unknown Code attributes not written; u16 overflow panic / invalid file for a long backward `if` at the very end of a full method) are matched by narrow signatures; every other disagreement is a violation.",
     "assumptions": ["TLC/SANY/CommunityModules", "cfkit: independent JVMS assembler, strict parser, duke tree -> class facts projection",
                     "harness: run-length skeleton of instruction lists (hash equality of runs), pairing of instruction-index facts by JSON path",
